@@ -5,6 +5,6 @@ set -u
 export VERIF_ONLY_PROPS=$1
 echo "== noalarm ($1)"; /venv/bin/python sim/cli.py selftest noalarm 2>&1 | grep -E "^noalarm" | grep -v "quiet=True"
 echo "== sensitivity seed 0 ($1)"; VERIF_SEED=0 /venv/bin/python sim/cli.py selftest sensitivity seeded/* mutants/* 2>&1 | grep -E "^sensitivity" | grep -v "caught=True"
-echo "== sensitivity seed 7 ($1)"; VERIF_SEED=7 /venv/bin/python sim/cli.py selftest sensitivity seeded/* mutants/* 2>&1 | grep -E "^sensitivity" | grep -v "caught=True"
+echo "== sensitivity seed 7, seeded only ($1)"; VERIF_SEED=7 /venv/bin/python sim/cli.py selftest sensitivity seeded/* 2>&1 | grep -E "^sensitivity" | grep -v "caught=True"
 echo "== soak ($1)"; for seed in 30 31 32 33 34 35; do for p in ${1//,/ }; do out=$(VERIF_SEED=$seed VERIF_NO_EVIDENCE=1 /venv/bin/python sim/cli.py check $p --tier quick 2>&1); code=$?; [ $code -ne 0 ] && echo "seed=$seed $p exit=$code $(echo "$out" | tail -5)"; done; done
 echo "== done"
